@@ -24,4 +24,6 @@ RPow10(k)  == Undef      \* 10^k, k any integer
 RFrac(n, d) == Undef     \* n/d from TLC integers, d # 0
 RLog2(a)   == Undef      \* floor(log2 |a|), a # 0
 RIsRat(a)  == Undef      \* a is a canonical rational string
+RChars(a)  == Undef      \* the characters of the string a, as a sequence of 1-character strings
+RJoin(s)   == Undef      \* concatenation of a sequence of strings (inverse of RChars)
 =============================================================================
